@@ -226,7 +226,7 @@ _BUILTINS = {
     'None': None, 'True': True, 'False': False, 'round': round, 'repr': repr, 'hex': hex, 'vars': vars,
     'namedtuple': collections.namedtuple,
     'map': lambda f, *its: [f(*a) for a in zip(*its)], 'filter': lambda f, it: [x for x in it if (f(x) if f is not None else x)],
-    'callable': callable, 'hash': hash, 'bin': bin, 'pow': pow, 'slice': slice, 'type': type, 'object': object,
+    'callable': callable, 'format': format, 'hash': hash, 'bin': bin, 'pow': pow, 'slice': slice, 'type': type, 'object': object,
     'ValueError': ValueError, 'TypeError': TypeError, 'KeyError': KeyError, 'IndexError': IndexError,
     'AttributeError': AttributeError, 'LookupError': LookupError, 'UnicodeError': UnicodeError,
     'UnicodeEncodeError': UnicodeEncodeError, 'OSError': OSError, 'Exception': Exception,
@@ -235,7 +235,8 @@ _BUILTINS = {
 _SAFE_METHODS = {
     dict: {'keys', 'values', 'items', 'get', 'pop', 'update', 'setdefault', 'copy'},
     str: {'lower', 'upper', 'find', 'index', 'count', 'startswith', 'endswith', 'join', 'split',
-          'strip', 'rstrip', 'lstrip', 'format', 'encode', 'isdigit', 'rfind', 'replace'},
+          'strip', 'rstrip', 'lstrip', 'format', 'encode', 'isdigit', 'rfind', 'replace', 'translate', 'partition', 'rpartition', 'title', 'zfill',
+          'isalnum', 'isalpha', 'isupper', 'islower', 'splitlines', 'casefold', 'capitalize', 'center', 'ljust', 'rjust', 'isspace', 'isascii', 'isnumeric', 'isdecimal'},
     bytes: {'find', 'index', 'count', 'lower', 'upper', 'startswith', 'endswith', 'decode', 'isdigit', 'join', 'split', 'strip', 'hex', 'replace', 'rfind'},
     bytearray: {'find', 'index', 'count', 'extend', 'append', 'pop'},
     tuple: {'index', 'count'},
@@ -572,6 +573,9 @@ def module_consts(forest, modname, _stack=()):
                     env[a.asname or 'sys'] = Namespace('sys', {'maxsize': _sys.maxsize})
                 elif a.name == 'segno':
                     pass
+                elif a.name == 'decimal':
+                    import decimal as _decimal
+                    env[a.asname or 'decimal'] = Namespace('decimal', {'Decimal': _decimal.Decimal, 'ROUND_HALF_UP': _decimal.ROUND_HALF_UP})
         elif isinstance(st, ast.ImportFrom):
             for a in st.names:
                 if st.module == 'collections' and a.name == 'namedtuple':
